@@ -919,6 +919,31 @@ theorem populateLogin_ignores_url (r : Req) (u : UrlC) (l : Option (Str × Str))
   | none => exact ⟨rfl, rfl⟩
   | some p => exact ⟨rfl, rfl⟩
 
+/-! ### what sending a request writes into the request object -/
+
+/-- `send_writes_only_host_and_authorization`: preparing and sending a request (`start()`: basic auth when due,
+`prepare_for_send`) writes into the request OBJECT under the names Host and Authorization only — in particular
+never a `Proxy-Authorization`: the proxy's credentials belong to the proxy hop (CONNECT / the connection pool),
+not to the request, so a 307/308 replay (a deep copy of that object) has nothing of the proxy to carry to an
+origin.  (That the pool keeps them out of tunnels and direct connections is checked on the wire: oracle only.) -/
+theorem send_writes_only_host_and_authorization (cfg : Cfg) (s : Sess) (r : Req) (m : Str)
+    (h1 : m ≠ title (lit "Host")) (h2 : m ≠ title (lit "Authorization")) :
+    vals (sendPrep cfg s r).fields m = vals r.fields m := by
+  have hauth : vals (addBasicAuth cfg r).fields m = vals r.fields m := by
+    rw [addBasicAuth_eq]
+    split
+    · show vals (setField r.fields (lit "Authorization") _) m = _
+      rw [vals_setField]; simp [h2]
+    · rfl
+  unfold sendPrep
+  simp only []
+  split
+  · rw [vals_prepareForSend]; simp [h1, hauth]
+  · rw [vals_prepareForSend]; simp [h1]
+
+example : title (lit "Proxy-Authorization") ≠ title (lit "Host") ∧
+    title (lit "Proxy-Authorization") ≠ title (lit "Authorization") := by decide
+
 def exUrlB : UrlC :=
   { scheme := lit "https", hostname := lit "b.example", port := 443, ipv6 := false, path := lit "/y", query := [],
     username := [], password := [], normUser := [], normPass := [] }
